@@ -21,7 +21,7 @@ from .handles import HWorld, REAL_TYPE, N
 from basictdf import Tdf
 from basictdf.tdfBlock import BlockType
 
-SPEC_FILES = ["TdfExtents.tla", "TdfFile.tla", "TdfHandlesCore.tla", "TdfTornCore.tla", "TdfTorn.tla", "MC_torn.cfg"]
+SPEC_FILES = ["TdfExtents.tla", "TdfFile.tla", "TdfHandlesCore.tla", "TdfTornCore.tla", "TdfTorn.tla", "MC_torn.cfg"]   # MC_torn_alt / _sound / _readable: run directly
 TE = refio.HDR + refio.ENT * N
 
 
@@ -318,10 +318,14 @@ def campaign(run, seed, budget):
             shown[inv] = any(before_blocks.get(e["type"]) is not None and raw[e["offset"]:e["offset"] + e["size"]] != before_blocks[e["type"]]
                              for e in live if e["type"] != REAL_TYPE[parse_label([x for x in labs if x.startswith("Begin")][-1])["t"]])
     run.cov["tlc_runs"].append(dict(name="MC MC_torn.cfg (crash points of add / remove / replace; beyond the listed properties)", **mc))
+    alt = tlc.run("TdfTorn.tla", "MC_torn_alt.cfg", workers=2, timeout=600)
+    run.cov["tlc_runs"].append(dict(name="MC MC_torn_alt.cfg (what-if: block bytes before the entry - every crash point of an add is then well-formed)",
+                                    **alt.summary()))
     run.cov["tlc_runs"].append(dict(name="TRACE torn", traces=len(items), calls=calls, crash_points=points, **res.summary()))
     run.cov.setdefault("torn", {}).update(
         traces=len(items), calls=calls, crash_points_compared_bytewise=points,
         refuted_by_tlc=ces, refutation_reproduced_on_real_library=shown,
+        what_if_bytes_before_entry_makes_add_crash_safe=not alt.violation and not alt.error,
         conformance_differences={str(t): [list(c) for c in cl][:3] for t, cl in list(bad.items())[:5]})
     if bad:
         run.cov["notes"].append(f"torn: {len(bad)} of {len(items)} histories differ from the TdfTorn prediction at some crash point (conf:*, no listed property)")
